@@ -58,7 +58,7 @@ YKinds == {"bytes", "hash", "random", "zero"}
 YVal(kind) == CASE kind = "bytes" -> PConst(3) [] kind = "hash" -> PAtom("yh") [] kind = "random" -> PAtom("yr") [] kind = "zero" -> PZero
 
 \* ------------------------------------------------------------ adversary: one component perturbed
-Perts == {"none", "u_add", "u_neg", "u_id", "v_add", "v_neg", "v_id", "uv_id", "y_other", "y_zero", "msg", "pk_other", "pk_neg", "pk_id", "label"}
+Perts == {"none", "u_add", "u_neg", "u_id", "v_add", "v_neg", "v_id", "uv_id", "y_other", "y_zero", "msg", "pk_other", "pk_neg", "pk_id", "label", "forge_v_id"}
 TsPerts == {"none", "u_add", "u_id", "v_add", "v_neg", "v_id", "msg", "pk_other", "pk_id", "label", "ts_past", "ts_future", "ts_zero", "ts_max"}
 
 \* ------------------------------------------------------------ system
@@ -79,8 +79,11 @@ APok(k, s, mr, yk, pert) ==
          u == Commit(s, pk, m)
          y == YVal(yk)
          f == Finalize(u, PAtom("x"), y, sig)
-         u2 == CASE pert = "u_add" -> GAdd(u, GenS) [] pert = "u_neg" -> GNeg(u) [] pert \in {"u_id", "uv_id"} -> GId [] OTHER -> u
-         v2 == CASE pert = "v_add" -> GAdd(f.v, GenS) [] pert = "v_neg" -> GNeg(f.v) [] pert \in {"v_id", "uv_id"} -> GId [] OTHER -> f.v
+         \* forge_v_id: no signature at all - the commitment is chosen after the challenge as -y H(m) and the
+         \* response is the identity, which satisfies the pairing equation for every key; only the guard refuses it
+         u2 == CASE pert = "u_add" -> GAdd(u, GenS) [] pert = "u_neg" -> GNeg(u) [] pert \in {"u_id", "uv_id"} -> GId
+                 [] pert = "forge_v_id" -> GNeg(GScale(y, Hs(TagOf(s), CommitMsg(s, pk, m)))) [] OTHER -> u
+         v2 == CASE pert = "v_add" -> GAdd(f.v, GenS) [] pert = "v_neg" -> GNeg(f.v) [] pert \in {"v_id", "uv_id", "forge_v_id"} -> GId [] OTHER -> f.v
          y2 == CASE pert = "y_other" -> PAdd(y, PConst(1)) [] pert = "y_zero" -> PZero [] OTHER -> y
          m2 == IF pert = "msg" THEN DenMsg(OtherMsg(mr)) ELSE m
          pk2 == CASE pert = "pk_other" -> PkOf(OtherKey(k)) [] pert = "pk_neg" -> GNeg(pk) [] pert = "pk_id" -> GId [] OTHER -> pk
@@ -147,7 +150,7 @@ Bound ==
 TimeBound == (Judged("PokTs") /\ last.tau >= 0 /\ last.delay > last.tau) => last.expect.res = "Err"
 \* C04: zero challenge, identity commitment / proof / key
 NoIdentity ==
-  /\ (Judged("Pok") /\ last.pert \in {"u_id", "v_id", "uv_id", "y_zero", "pk_id"}) => last.expect.res = "Err"
+  /\ (Judged("Pok") /\ last.pert \in {"u_id", "v_id", "uv_id", "y_zero", "pk_id", "forge_v_id"}) => last.expect.res = "Err"
   /\ (Judged("Pok") /\ last.y = "zero") => last.expect.finalize = "Err"
 
 EmitVec == (Emit /\ last.act # "-") => PrintT(<<"VEC", ToJson([spec |-> "Pok"] @@ last)>>)
